@@ -146,6 +146,7 @@ def search(run, info):
             run.sample({"mode": mode, "a": a[:120], "b": b[:160]})
     # ---- the statement parser model (C08_statement_respelling): three spellings per body ----
     st_stats = st_corr.check(run, info, 150 if run.tier == "quick" else 2500, 0, "c08")
+    decl_stats = st_corr.check_fbd(run, info, 100 if run.tier == "quick" else 1500, 0, "c08")
     return {"coverage": {
         "rule": "units from the AST-level and the syntactic generator, each in %d random spellings cycling through: everything / letter case "
                 "only / layout, comments and the optional ';' only; valid-by-construction units with random letter case (verdict and codes); "
